@@ -555,10 +555,26 @@ class Interp(object):
         return res + rets
 
     def _is_read_before_write(self, body, name):
+        """does the loop body use the previous iteration's value of `name`?
+        (the base of a subscript *store* is not a read of the array's contents)"""
+        bases = set()
         for st in body:
             for n in ast.walk(st):
-                if isinstance(n, ast.Name) and n.id == name:
-                    return isinstance(n.ctx, ast.Load) or isinstance(st, ast.AugAssign)
+                if isinstance(n, ast.Subscript) and isinstance(n.ctx, ast.Store):
+                    b = n.value
+                    while isinstance(b, ast.Subscript):
+                        b = b.value
+                    if isinstance(b, ast.Name):
+                        bases.add(id(b))
+        for st in body:
+            for n in ast.walk(st):
+                if isinstance(n, ast.Name) and n.id == name and id(n) not in bases:
+                    if isinstance(n.ctx, ast.Load):
+                        return True
+                    if isinstance(n.ctx, ast.Store):
+                        if isinstance(st, ast.AugAssign):
+                            return True
+                        return False
         return False
 
     def loop_target_value(self, target, it, tag):
@@ -812,10 +828,15 @@ class Interp(object):
 
     def ev_index(self, sl, env, ctx):
         if isinstance(sl, ast.Slice):
-            return ("slice",
-                    self.ev(sl.lower, env, ctx) if sl.lower is not None else None,
-                    self.ev(sl.upper, env, ctx) if sl.upper is not None else None,
-                    self.ev(sl.step, env, ctx) if sl.step is not None else None)
+            lo = self.ev(sl.lower, env, ctx) if sl.lower is not None else None
+            hi = self.ev(sl.upper, env, ctx) if sl.upper is not None else None
+            stp = self.ev(sl.step, env, ctx) if sl.step is not None else None
+            # canonical spelling: x[:k] == x[0:k], x[a:b] == x[a:b:1] (positive steps)
+            if stp is None or (isinstance(stp, Rat) and stp.real_const() == 1):
+                stp = None
+                if lo is None:
+                    lo = Rat.const(0)
+            return ("slice", lo, hi, stp)
         if isinstance(sl, ast.Tuple):
             return tuple(self.ev_index(x, env, ctx) for x in sl.elts)
         return self.ev(sl, env, ctx)
